@@ -481,9 +481,14 @@ def make_layout(d, spec):
         import cooler
         cands = {os.path.join(os.path.dirname(B), "A.cool"), os.path.join(os.path.dirname(A), "B.cool"),
                  os.path.join(cwd, "A.cool"), os.path.join(cwd, "B.cool")} - {A, B}
-        if not DECOY_WHERE_CWD_RELATIVE_LINK_LANDS:
-            for src, dst in ((A, B), (B, A)):
-                cands.discard(os.path.realpath(os.path.join(os.path.dirname(dst), os.path.relpath(src, cwd))))
+        for src, dst in ((A, B), (B, A)):
+            # where a source name written relative to the cwd lands when read relative to the other file's directory
+            spot = os.path.realpath(os.path.join(os.path.dirname(dst), os.path.relpath(src, cwd)))
+            if DECOY_WHERE_CWD_RELATIVE_LINK_LANDS and spot not in (A, B) and spot.startswith(d + os.sep):
+                os.makedirs(os.path.dirname(spot), exist_ok=True)
+                cands.add(spot)
+            elif not DECOY_WHERE_CWD_RELATIVE_LINK_LANDS:
+                cands.discard(spot)
         tmpl = os.path.join(os.path.dirname(d), f"decoy_template_{os.getpid()}.cool")
         if not os.path.exists(tmpl):
             for grp in ("/", "/c2", "/c10"):
